@@ -1,7 +1,8 @@
-(* C11 - model of pyoma2.functions.ssi.SSI_mpe and pyoma2.functions.plscf.pLSCF_mpe (explicit order: int / list;
-   SSI: order = "find_min").  Definitions only.
+(* C11 - model of pyoma2.functions.ssi.SSI_mpe and pyoma2.functions.plscf.pLSCF_mpe
+   (order = int / list of int / "find_min").  Definitions only.
    Tables are indexed [row][order-column]; NaN = None; a Python exception = Err.  The tables other than the frequency
-   table (damping, shapes, covariances) are only MOVED by the code: they are one opaque payload table [Pay] here. *)
+   table (damping, shapes, covariances) are only MOVED by the code: they are one opaque payload table [Pay] here, so
+   "frequency, damping, shape and covariances of ONE pole" = "the frequency and the payload of ONE cell". *)
 From Coq Require Import List Arith ZArith QArith Qabs Bool.
 From PyOMA.Base Require Import Argmin.
 Import ListNotations.
@@ -48,7 +49,7 @@ Definition pick1 (Fn:tab) (rtol:Q) (f:Q) (oc:option nat) : res (option (nat*nat)
       | Some (r,_) =>
         match nth_error col r with
         | Some (Some p) => if isclose rtol p f then Ok (Some (r,c)) else Ok None
-        | _ => Err ValueErr                        (* unreachable: P_mpe.pick1_reach *)
+        | _ => Err ValueErr                        (* unreachable: P_mpe.pick1_spec *)
         end
       end
     end
@@ -106,33 +107,33 @@ Definition mpe_explicit {P} (Fn:tab) (Pay:list (list P)) (freq:list Q) (eo:eorde
                end
   end.
 
-(* pLSCF_mpe with an explicit order: [order] is used directly as the column index *)
-Definition plscf_mpe {P} := @mpe_explicit P.
-
 (* ---------------------------------------------------------------------------------------------------------
-   SSI_mpe, order = "find_min" *)
+   order = "find_min", generic in the band test [band f p] ("pole p lies in the search band of request f") and in
+   the label value [lv] that marks a stable pole. *)
 Fixpoint map2 {A B C} (f:A->B->C) (l1:list A) (l2:list B) : list C :=
   match l1, l2 with a::t1, b::t2 => f a b :: map2 f t1 t2 | _, _ => [] end.
 
-(* np.where(Lab == 1, Fn_pol, nan) *)
-Definition stable_tab (Lab:list (list Z)) (Fn:tab) : tab :=
-  map2 (map2 (fun (l:Z) (p:option Q) => if Z.eqb l 1 then p else None)) Lab Fn.
+(* np.where(Lab == lv, Fn_pol, nan) *)
+Definition lab_tab (lv:Z) (Lab:list (list Z)) (Fn:tab) : tab :=
+  map2 (map2 (fun (l:Z) (p:option Q) => if Z.eqb l lv then p else None)) Lab Fn.
 
-(* limits (f - rtol, f + rtol), both ends included *)
+(* SSI_mpe: limits (f - rtol, f + rtol), both ends included *)
 Definition inb (rtol f p:Q) : bool := Qle_bool (f - rtol) p && Qle_bool p (f + rtol).
+(* pLSCF_mpe: limits (f - deltaf, f + deltaf), both ends excluded *)
+Definition inbs (deltaf f p:Q) : bool := Qlt_bool (f - deltaf) p && Qlt_bool p (f + deltaf).
 
 Fixpoint sumQ (l:list Q) : Q := match l with [] => 0 | x::t => x + sumQ t end.
 
 (* one cell of aggregated_poles: sum over the requests of (pole if inside that band else 0); 0 -> NaN.
    A NaN pole fails every comparison, contributes 0 everywhere, hence NaN. *)
-Definition aggv (freq:list Q) (rtol p:Q) : Q := sumQ (map (fun f => if inb rtol f p then p else 0) freq).
-Definition agg_cell (freq:list Q) (rtol:Q) (o:option Q) : option Q :=
+Definition aggv (band:Q->Q->bool) (freq:list Q) (p:Q) : Q := sumQ (map (fun f => if band f p then p else 0) freq).
+Definition agg_cell (band:Q->Q->bool) (freq:list Q) (o:option Q) : option Q :=
   match o with
   | None => None
-  | Some p => let s := aggv freq rtol p in if Qeq_bool s 0 then None else Some s
+  | Some p => let s := aggv band freq p in if Qeq_bool s 0 then None else Some s
   end.
-Definition agg_col (freq:list Q) (rtol:Q) (scol:list (option Q)) : list (option Q) := map (agg_cell freq rtol) scol.
-Definition agg_tab (freq:list Q) (rtol:Q) (S:tab) : tab := map (agg_col freq rtol) S.
+Definition agg_col (band:Q->Q->bool) (freq:list Q) (scol:list (option Q)) : list (option Q) := map (agg_cell band freq) scol.
+Definition agg_tab (band:Q->Q->bool) (freq:list Q) (S:tab) : tab := map (agg_col band freq) S.
 
 (* np.unique: sorted ascending, numerically distinct *)
 Fixpoint insert_u (x:Q) (l:list Q) : list Q :=
@@ -174,7 +175,7 @@ Fixpoint payloads {P} (Pay:list (list P)) (c:nat) (urs:list (Q*nat)) : res (list
                 end
   end.
 
-Definition ncols (Fn:tab) : nat := match Fn with [] => O | r::_ => length r end.
+Definition ncols {A} (T:list (list A)) : nat := match T with [] => O | r::_ => length r end.
 
 Definition col_test (A:tab) (freq:list Q) (rtol:Q) (i:nat) : option (res (list (Q*nat))) :=
   match getcol A i with
@@ -182,13 +183,18 @@ Definition col_test (A:tab) (freq:list Q) (rtol:Q) (i:nat) : option (res (list (
   | Some acol => qual_col freq rtol acol
   end.
 
-Definition find_min {P} (Fn:tab) (Pay:list (list P)) (Lab:list (list Z)) (freq:list Q) (rtol:Q) : res (list (Q*P) * oout) :=
-  let A := agg_tab freq rtol (stable_tab Lab Fn) in
+Definition find_min_gen {P} (band:Q->Q->bool) (lv:Z) (Fn:tab) (Pay:list (list P)) (Lab:list (list Z)) (freq:list Q) (rtol:Q)
+  : res (list (Q*P) * oout) :=
+  let A := agg_tab band freq (lab_tab lv Lab Fn) in
   match first_some (col_test A freq rtol) (ncols Fn) 0 with
   | None => Ok ([], OutNone)
   | Some (_, Err e) => Err e
   | Some (i, Ok urs) => match payloads Pay i urs with Err e => Err e | Ok vals => Ok (vals, OutInt i) end
   end.
+
+(* SSI_mpe(order="find_min"): stable = label 1, band = [f - rtol, f + rtol] *)
+Definition find_min {P} (Fn:tab) (Pay:list (list P)) (Lab:list (list Z)) (freq:list Q) (rtol:Q) :=
+  @find_min_gen P (inb rtol) 1%Z Fn Pay Lab freq rtol.
 
 Definition ssi_mpe {P} (Fn:tab) (Pay:list (list P)) (Lab:list (list Z)) (freq:list Q) (ord:order) (rtol:Q)
   : res (list (Q*P) * oout) :=
@@ -196,6 +202,92 @@ Definition ssi_mpe {P} (Fn:tab) (Pay:list (list P)) (Lab:list (list Z)) (freq:li
   | Explicit eo => mpe_explicit Fn Pay freq eo rtol
   | FindMin => find_min Fn Pay Lab freq rtol
   end.
+
+(* ---------------------------------------------------------------------------------------------------------
+   pLSCF_mpe.  Explicit order: the same code as SSI_mpe ([order] is used directly as the column index). *)
+Definition plscf_mpe_explicit {P} := @mpe_explicit P.
+
+(* order = "find_min", PROPERTY-CONFORMING behaviour: stable = label 1 (what gen.SC_apply writes), band = (f - deltaf, f + deltaf),
+   first qualifying order, every output from that order.  This is the function the theorem mpe_find_min speaks about. *)
+Definition plscf_find_min_conforming {P} (Fn:tab) (Pay:list (list P)) (Lab:list (list Z)) (freq:list Q) (deltaf rtol:Q) :=
+  @find_min_gen P (inbs deltaf) 1%Z Fn Pay Lab freq rtol.
+
+(* order = "find_min", the PRESENT code, statement by statement (plscf.py:318-375):
+     a  = where(Lab == 7, Fn, nan);  aa = sum of the per-request strict bands, 0 -> nan
+     ii = 0; check = [False, False]
+     while not check.any():
+         fn = unique non-NaN values of aa[:, ii]
+         if len(fn) == len(sel_freq): check = isclose(fn, sel_freq, rtol)        (element-wise, then ANY)
+         if ii == ncols - 1: break
+         ii += 1
+     ii -= 1
+     Fn_out = fn ;  b = aa[:, ii] (Python index: -1 = last column) ; if b has a non-NaN entry: Xi, Phi of nanargmin|b - f| for f in fn
+     order_out = ii
+   Result: (Fn_out, payloads, order_out); the two lists need not have the same length. *)
+Fixpoint plscf_scan (A:tab) (freq:list Q) (rtol:Q) (last fuel i:nat) : res (Z * list Q) :=
+  match fuel with
+  | O => Err IndexErr                              (* aa[:, 0] of a table without columns *)
+  | S fuel' =>
+    match getcol A i with
+    | None => Err IndexErr
+    | Some col =>
+      let us := uniq_sorted (somes col) in
+      let anyc := (length us =? length freq)%nat && existsb (fun uf => isclose rtol (fst uf) (snd uf)) (combine us freq) in
+      if (i =? last)%nat then Ok ((Z.of_nat i - 1)%Z, us)
+      else if anyc then Ok (Z.of_nat i, us)
+      else plscf_scan A freq rtol last fuel' (S i)
+    end
+  end.
+
+Definition plscf_find_min_lab {P} (lv:Z) (Fn:tab) (Pay:list (list P)) (Lab:list (list Z)) (freq:list Q) (deltaf rtol:Q)
+  : res (list Q * list P * Z) :=
+  let A := agg_tab (inbs deltaf) freq (lab_tab lv Lab Fn) in
+  match plscf_scan A freq rtol (ncols Fn - 1) (ncols Fn) 0 with
+  | Err e => Err e
+  | Ok (z, us) =>
+    let c := if (z <? 0)%Z then (ncols Fn - 1)%nat else Z.to_nat z in
+    match getcol A c with
+    | None => Err IndexErr
+    | Some b =>
+      match somes b with
+      | [] => Ok (us, [], z)
+      | _ :: _ => match rows_of b us with
+                  | Err e => Err e
+                  | Ok urs => match payloads Pay c urs with Err e => Err e | Ok vals => Ok (us, map snd vals, z) end
+                  end
+      end
+    end
+  end.
+
+Definition plscf_find_min_present {P} := @plscf_find_min_lab P 7%Z.
+
+(* ---------------------------------------------------------------------------------------------------------
+   specification vocabulary used by the theorems (Prop-valued definitions; nothing is asserted here) *)
+
+(* the pole of row r is retained and labelled lv at order-column i, and its frequency is p *)
+Definition stable_at (lv:Z) (Lab:list (list Z)) (Fn:tab) (i r:nat) (p:Q) : Prop :=
+  cell Lab r i = Some lv /\ cell Fn r i = Some (Some p).
+
+(* acceptance region of request f: inside the band and not the value 0 (the code turns a 0 sum into NaN) *)
+Definition region (band:Q->Q->bool) (f p:Q) : Prop := band f p = true /\ ~ p == 0.
+
+(* order-column i qualifies: every request has exactly one distinct stable pole in its region, and that pole is
+   np.isclose to the request *)
+Definition qualifies (band:Q->Q->bool) (lv:Z) (Lab:list (list Z)) (Fn:tab) (freq:list Q) (rtol:Q) (i:nat) : Prop :=
+  Forall (fun f => exists r p, stable_at lv Lab Fn i r p /\ region band f p /\ isclose rtol p f = true /\
+                     forall r' p', stable_at lv Lab Fn i r' p' -> region band f p' -> p' == p) freq.
+
+(* ascending requests with separated bands: whatever lies in the band of an earlier request is below whatever lies
+   in the band of a later one *)
+Definition separated (band:Q->Q->bool) (freq:list Q) : Prop :=
+  ForallOrdPairs (fun f g => forall p p', band f p = true -> band g p' = true -> p < p') freq.
+
+(* the isclose neighbourhood of one request does not reach into the band of another request *)
+Definition no_reach (band:Q->Q->bool) (freq:list Q) (rtol:Q) : Prop :=
+  forall f g p, In f freq -> In g freq -> band f p = true -> isclose rtol p g = true -> f = g.
+
+(* rectangular n x m table *)
+Definition rect {A} (n m:nat) (T:list (list A)) : Prop := length T = n /\ Forall (fun r => length r = m) T.
 
 (* ---------------------------------------------------------------------------------------------------------
    printers for the harness *)
@@ -216,3 +308,10 @@ Definition showSels (r:res (list (option (nat*nat)))) : string :=
   | Err e => "E " ++ showErr e
   | Ok l => "O " ++ showL (fun s => match s with Some (r,c) => showN r ++ "," ++ showN c | None => "-" end) " " l
   end.
+Definition showPresent (r:res (list Q * list nat * Z)) : string :=
+  match r with
+  | Err e => "E " ++ showErr e
+  | Ok (us, ps, z) => "O " ++ showL showQ " " us ++ "|" ++ showL showN " " ps ++ "|" ++ showZ z
+  end.
+(* payload table of cell identifiers r*m + c, n rows x m columns *)
+Definition id_tab (n m:nat) : list (list nat) := map (fun r => map (fun c => (r*m + c)%nat) (seq 0 m)) (seq 0 n).
